@@ -92,7 +92,11 @@ def one_case(ctx, rs, scope, pred, tag):
 
 
 def _one_case_core(ctx, rs, scope, pred, tag):
-    clt = C.make_clt(rs, scope, pred)
+    if tag.endswith('-fitted'):
+        clt = C.make_fitted_clt(rs, scope, pred)         # tree given at construction, parameters learned by fit()
+        ctx.count('trees-constructed-then-fitted')
+    else:
+        clt = C.make_clt(rs, scope, pred)
     n = len(scope)
     ncols = max(scope) + 1
     rep = dict(kind='c12', scope=[int(v) for v in scope], pred=list(pred), params=np.asarray(clt.params, dtype=np.float64).tolist())
@@ -177,7 +181,7 @@ def run(ctx):
             k += 1
             ncols = n + int(rs.randint(0, 4))
             scope = [int(v) for v in rs.choice(ncols, n, replace=False)]     # permuted, non-contiguous labels
-            one_case(ctx, rs, scope, pred, f'exh{n}')
+            one_case(ctx, rs, scope, pred, f'exh{n}' + ('-fitted' if (k % 4 == 1 and n >= 2) else ''))
             if ctx.n_new(with_input_only=True) >= 3:
                 return
     ctx.extra['exhaustive_tree_shapes_up_to'] = nmax_exh
